@@ -51,6 +51,17 @@ def walk_stmts(ss):
     yield from F._flat(ss)
 
 
+def mark_keep(stmts):
+    """Statements the shrinker must not delete (initialisation / observation of the harness-owned locals)."""
+    for st in walk_stmts(stmts):
+        st['keep'] = True
+    return stmts
+
+
+def n_keep(prog):
+    return sum(1 for u in prog['units'] for st in walk_stmts(u['body']) if st.get('keep'))
+
+
 def prune_unreachable(prog, root='kernel'):
     """Drop the units no call chain from `root` reaches: the Scheduler only rewrites the call tree of its seed, so a
     dead module routine that still calls a rewritten one would break the build without any fault of Loki."""
@@ -296,6 +307,7 @@ class GenParam(F.Gen):
             init.append(do('i', N(1), V('nlev'), [assign(el('wa', V('i')), mod_(add(op('prod', V('i'), N(2)), V('m')), 9))]))
         self.in_kernel = True
         first = self.call_lev1() if 'entry1' in self.f else []
+        mark_keep(init[5:])
         body = init + first + self.block(depth, nstmts)
         if not any(s['s'] == 'call' and s['name'] == 'lev1' for s in walk_stmts(body)):
             body += self.call_lev1()
@@ -304,7 +316,7 @@ class GenParam(F.Gen):
             self.f.discard('mixed')
             body += self.call_lev1()
         self.in_kernel = False
-        body += [assign(V('t2'), call('sum', V('wa'))), assign(V('k'), mod_(add(V('k'), V('t2'), V('t1')), 97))]
+        body += mark_keep([assign(V('t2'), call('sum', V('wa'))), assign(V('k'), mod_(add(V('k'), V('t2'), V('t1')), 97))])
         kernel = unit('kernel', args, decls, body)
         sites = {}
         for callee, form in self.sites:
@@ -675,7 +687,8 @@ def report_grouped(ctx, label, cases, results, fails, check, tagger, rounds=3, m
         if shrunk < max_groups and not any(re.fullmatch(m, key) for m in known):
             shrunk += 1
             for _ in range(rounds):
-                cands = [c for c in map(prune_unreachable, F.removal_candidates(small, limit=40)) if tagger(c) == tags][:12]
+                cands = [c for c in map(prune_unreachable, F.removal_candidates(small, limit=60))
+                         if tagger(c) == tags and n_keep(c) == n_keep(small)][:12]
                 if not cands:
                     break
                 _, fl, _ = check([(c, inputs) for c in cands])
@@ -735,7 +748,7 @@ class GenSig(F.Gen):
             body += self.rng.choice(self.helpers[2:])['mkcall'](self)
         # observe the locals
         tail = [assign(V('t2'), mod_(add(call('sum', V('wc')), call('sum', V('wv'))), 101)), assign(V('k'), mod_(add(V('k'), V('t2'), V('t1')), 97))]
-        kern['body'] = body[:5] + init + body[5:] + tail
+        kern['body'] = body[:5] + mark_keep(init) + body[5:] + mark_keep(tail)
         prog['meta'] = {'family': self.family, 'opts': self.opts}
         prune_unreachable(prog)
         for u in prog['units'][1:]:       # scalar dummies are declared before the arrays whose bounds mention them
@@ -907,6 +920,7 @@ def sig_tags(prog):
     fam = prog['meta']['family']
     units = {u['name']: u for u in prog['units']}
     tags = set()
+    dupgroups = {}
     for u in prog['units']:
         for s in walk_stmts(u['body']):
             if s['s'] != 'call' or s['name'] not in units:
@@ -923,16 +937,21 @@ def sig_tags(prog):
                 else:
                     tags.add('e2' + ('r2' if s['name'] == 'sq2' else ''))
             elif fam == 'dup' and s['name'].startswith('dp'):
-                acts = [F.rx(a) for a in s['args']]
-                if len(set(acts)) < len(acts):
-                    ints = [x for x, dn in zip(acts, cal['args']) if not next(d for d in cal['decls'] if d['name'] == dn).get('xdims')]
-                    arrs = [x for x in acts if x not in ints]
-                    if len(set(ints)) < len(ints):
-                        tags.add('dupscalar')
-                    if len(set(arrs)) < len(arrs):
-                        tags.add('duparray')
-                    if len(set(ints)) < len(ints) and any(nm in cal['args'] for d in cal['decls'] if d.get('xdims') and d['name'] not in cal['args']
-                                                           for nm in F_names(d['xdims'])):
+                # dummies of the callee that receive the same actual (duplicates of the caller's own dummies count:
+                # they are merged by the time the nested call is rewritten)
+                mine = dupgroups.get(u['name'], {})
+                keys = [mine.get(a['name'], a['name']) if a['k'] == 'var' else F.rx(a) for a in s['args']]
+                rename = prog['meta'].get('opts', {}).get('rename')
+                for key in set(keys):
+                    grp = [dn for dn, kk in zip(cal['args'], keys) if kk == key]
+                    if len(grp) < 2:
+                        continue
+                    isarr = bool(next(d for d in cal['decls'] if d['name'] == grp[0])['dims'])
+                    tags.add('duparray' if isarr else 'dupscalar')
+                    for dn in grp:
+                        dupgroups.setdefault(cal['name'], {})[dn] = grp[0]
+                    gone = set(grp if rename else grp[1:])     # names that no longer exist in the callee afterwards
+                    if any(nm in gone for d in cal['decls'] if d.get('xdims') for nm in F_names(d['xdims'])):
                         tags.add('specuse')
             elif fam == 'shape' and s['name'].startswith('sh'):
                 a = s['args'][0]
@@ -1171,7 +1190,7 @@ def _dtype_program(self, prog):
         tail += [assign(V('t1'), mod_(add(V('t1'), V('ou%tag'), V('ou%inner%cnt'), call('sum', V('ou%inner%v')), el('ou%inner%v', N(vlb))), 103))]
     tail.append(assign(V('k'), mod_(add(V('k'), V('t2'), V('t1')), 97)))
     body = kern['body']
-    kern['body'] = body[:5] + init + body[5:] + tail
+    kern['body'] = body[:5] + mark_keep(init) + body[5:] + mark_keep(tail)
     return prog
 
 
